@@ -4,6 +4,7 @@
 //           nfun=<number of functors in get_function_composition(view)>  arity=<its static arity>
 //           shape= data=      host evaluation of the view
 //           ashape= adata=    evaluation of fn::apply(get_function_composition(view), get_function_operands(view))
+//     a NUMBER literal operand (held by value in the operand tuple) is identified by its value: index `litidx` of the request
 //   c14_graph prog=<name> shapes=..   -> ok nodes=<id:L<leaf index> | id:F<arity>[operand ids]>,... edges=<src>dst>,...
 //   c14_alias ids=<list>              -> ok <index::generate_alias(ids)>
 // One source, several TUs (-DC14_GROUP=n); graph extraction is compiled only for the programs marked GRAPH.
@@ -63,6 +64,9 @@ template <typename T> static const void* addr_of(const T& op) {
     if constexpr (meta::is_pointer_v<T>) return (const void*)op; else return (const void*)&op;
 }
 
+// the number literal of the current program (operand index, value); index -1 = the program has none
+static long long g_lit_index = -1, g_lit_value = 0;
+
 template <typename view_t> static std::string extract_(const view_t& v, const std::vector<const void*>& leaves) {
     uvec hshape; std::vector<long long> hdata;
     if (!host_eval(v, hshape, hdata)) return "nothing-eval";
@@ -71,8 +75,10 @@ template <typename view_t> static std::string extract_(const view_t& v, const st
     constexpr auto N = meta::len_v<meta::remove_cvref_t<decltype(operands)>>;
     std::vector<long long> idx;
     meta::template_for<N>([&](auto i){
-        const void* p = addr_of(nm::get<decltype(i)::value>(operands));
-        long long j = -1; for (size_t k = 0; k < leaves.size(); k++) if (leaves[k] == p) j = (long long)k;
+        const auto& o = nm::get<decltype(i)::value>(operands);
+        long long j = -1;
+        if constexpr (meta::is_num_v<meta::remove_cvref_t<decltype(o)>>) { if (g_lit_index >= 0 && (long long)o == g_lit_value) j = g_lit_index; }
+        else { const void* p = addr_of(o); for (size_t k = 0; k < leaves.size(); k++) if (leaves[k] == p) j = (long long)k; }
         idx.push_back(j);
     });
     size_t nfun = 1;
@@ -102,6 +108,9 @@ template <typename view_t> static std::string graph(const view_t& v, const std::
 #define AXES (intsi(a,"axes"))
 #define KEEP nm::None, nm::None, nm::True
 #define DROP nm::None, nm::None, nm::False
+// number-valued sub-views: a reduction over ALL axes (axis None, keepdims false) is a 0-d, `is_num_v` view
+#define SUMALL(x) view::reduce_add(x, nm::None)
+#define MAXALL(x) view::reduce_maximum(x, nm::None)
 #define x0 L.r(0)
 #define x1 L.r(1)
 #define x2 L.r(2)
@@ -189,6 +198,37 @@ std::string handle(const std::string& op, const Args& a) {
     PROG("d4_add_nmn_sxn", view::add(view::negative(view::multiply(view::negative(x0), x1)), view::subtract(x2, view::negative(x3))))
     PROG("d4_sum_add_x_tr_neg", view::reduce_add(view::add(x0, view::transpose(view::negative(x1), AXES)), AXIS, DROP))
     PROG("d4_neg_sub_mul_neg", view::negative(view::subtract(view::multiply(view::negative(x0), x1), x2)))
+#elif C14_GROUP == 11
+    // a NUMBER-valued view (reduction over all axes) as an operand of a broadcasting binary ufunc, first / non-first position
+    GRAPH("mul_sumall_x",    view::multiply(SUMALL(x0), x1))
+    PROG("sub_maxall_x",     view::subtract(MAXALL(x0), x1))
+    PROG("mul_vsumall_x",    view::multiply(view::sum(x0, nm::None), x1))
+    PROG("add_x_maxall",     view::add(x0, MAXALL(x1)))
+    PROG("sub_sumall_x_rep", view::subtract(SUMALL(x0), x0))
+    PROG("sub_x_sumall_rep", view::subtract(x0, SUMALL(x0)))
+    PROG("mul_sumall_neg_x", view::multiply(SUMALL(view::negative(x0)), x1))
+    PROG("mul_sumall_sum_x", view::multiply(SUMALL(view::reduce_add(x0, AXIS, DROP)), x1))
+#elif C14_GROUP == 12
+    // nested: the number-valued view over a binary node / under further nodes, depth 3 and 4
+    PROG("neg_mul_sumall_mul_x", view::negative(view::multiply(SUMALL(view::multiply(x0, x1)), x2)))
+    PROG("add_mul_sumall_x_x",   view::add(view::multiply(SUMALL(x0), x1), x2))
+    PROG("tr_add_maxall_x",      view::transpose(view::add(MAXALL(x0), x1), AXES))
+    PROG("mul_x_sumall_mul",     view::multiply(x0, SUMALL(view::multiply(x1, x2))))
+    PROG("sum_mul_maxall_x",     view::reduce_add(view::multiply(MAXALL(x0), x1), AXIS, DROP))
+    if (prog == "al_mul_sumall") { auto a0 = view::alias(x0, 0_ct); auto a1 = view::alias(x1, 1_ct);
+        GRAPH("al_mul_sumall",   view::multiply(SUMALL(a0), a1)) }
+#elif C14_GROUP == 13
+    // number LITERAL operands of binary ufuncs in either position (operand index `litidx`, value `lit`; its entry in shapes= is a dummy),
+    // and ternary where with a number-valued condition (a 0-d view / a literal)
+    g_lit_index = has(a, "litidx") ? integer(a, "litidx") : -1; g_lit_value = has(a, "lit") ? integer(a, "lit") : 0;
+    const int LIT = (int)g_lit_value;
+    PROG("add_x_lit",         view::add(x0, LIT))
+    PROG("mul_lit_x",         view::multiply(LIT, x1))
+    PROG("neg_add_mul_x_lit_x", view::negative(view::add(view::multiply(x0, LIT), x2)))
+    PROG("add_sum_lit",       view::add(view::reduce_add(x0, AXIS, DROP), LIT))
+    PROG("sub_lit_neg_x",     view::subtract(LIT, view::negative(x1)))
+    PROG("where_maxall",      view::where(MAXALL(x0), x1, x2))
+    PROG("where_lit",         view::where(LIT, x1, x2))
 #endif
     return "unknown-prog";
 }
